@@ -7,6 +7,11 @@ Families
            model: the harness tells the driver what `bytes.decode` & co. do on this very case.
   session  the real GeminiClient.get / upload on a virtual-clock loop whose create_connection attaches a
            fake transport and a scripted server: prompt termination, timeout cut-off.
+           Bodies around the size cap go through GeminiClient.get / upload here as well (cut off at the cap, at the moment the cap
+           is crossed), and every response is compared with the complete stream of the server.
+  linger   the same calls against peers whose TLS connection does not go away when the client closes it (sim/client_linger): the
+           peer has stopped reading and never answers the close_notify, or answers late.  A server that never finishes is cut off
+           at the timeout (T after the connection is up), not when the closed connection is finally gone.
   overlap  ONE GeminiClient with several get / upload calls in flight at once (asyncio.gather), each against its own
            scripted server on the virtual-clock loop: every call ends with the faithful response to ITS server's
            stream (or an error / the timeout), whatever the other calls do.
@@ -569,6 +574,14 @@ def _dummy_ctx():
     return _CTX
 
 
+# Switched OFF: "nothing can be learned from a connection the client has closed itself, so the call ends at that moment".  The property
+# promises promptness "once the peer has closed" and the cut-off at the timeout otherwise, and the unchanged client does not meet the
+# stronger reading: a non-2x response is only delivered by connection_lost, i.e. after the TLS shutdown that its own close() started, so
+# against a peer that has stopped reading `51 Not found CRLF` ends in TimeoutError at the timeout (confirmed over loopback TLS, see the
+# family `linger`).  The timeout bound itself (`no-timeout-cutoff`) does not depend on this switch.
+KNOWN_OUTCOME_RULE = False
+
+
 class Session(Family):
     name = "session"
     quick_n = 1200
@@ -596,6 +609,29 @@ class Session(Family):
             yield {"op": "upload", "stream": [], "cls": "wpause", "cuts": [], "delays": [0.0],
                    "end": ["stall", "stall", "close", "reset"][i % 4], "end_delay": rng.choice([0.5, timeout + 3.0]), "connect_delay": 0.0, "timeout": timeout, "dt": True,
                    "content_len": sizes[i % len(sizes)] + rng.randint(0, 9), "pause_after": rng.choice([0, 65536, 100000])}
+        # bodies around the size cap through the full client (get and upload): cut off at the cap, delivered whole up to it
+        yield from self.share(self.cap_cases(rng))
+
+    @staticmethod
+    def cap_cases(rng: random.Random, answers=("absent",)):
+        """2x responses whose body is just under / exactly / over the size cap x get / upload x how the server ends; a few reads only
+        (every read of a 10 MiB stream costs a copy of the buffer)"""
+        out = []
+        for op, (extra, cls), end in itertools.product(["get", "upload"], [(1, "cap+1"), (5000, "cap+5000"), (0, "cap-exact"), (3 << 20, "cap+3MiB")], ["close", "stall", "reset"]):
+            head = rng.choice([b"20 application/octet-stream\r\n", b"20 text/plain\r\n", b"20 image/png\r\n", b"20 text/gemini; charset=latin-1\r\n"])
+            n = len(head) + MAX_BODY + extra
+            cuts = rng.choice([[], [len(head)], [len(head) + MAX_BODY], [len(head), len(head) + MAX_BODY - 1, len(head) + MAX_BODY], sorted(rng.sample(range(1, n), 3)),
+                               [len(head) + (MAX_BODY // 4) * k for k in range(1, 4)]])
+            cuts = sorted(set(c for c in cuts if 0 < c < n))
+            timeout = rng.choice([2.0, 5.0, 30.0])
+            case = {"op": op, "stream": [lit(head), ["r", rng.choice([0, 97, 165, 255]), MAX_BODY + extra]], "cls": cls, "cuts": cuts,
+                    "delays": [rng.choice([0.0, 0.125, 0.25]) for _ in range(len(cuts) + 1)], "end": end, "end_delay": rng.choice([0.0, 0.25]),
+                    "connect_delay": rng.choice([0.0, 0.0, 0.5]), "timeout": timeout, "dt": rng.random() < 0.7}
+            a = rng.choice(list(answers))
+            if a != "absent":
+                case["answer"] = a
+            out.append(case)
+        return out
 
     def impl(self, case):
         from nauyaca.client.session import GeminiClient
@@ -604,8 +640,16 @@ class Session(Family):
         data = build(case["stream"])
         chunks = split_at(data, case["cuts"])
         delays = (case["delays"] + [0.0] * len(chunks))[: len(chunks)]
-        loop = VLoop()
-        script = ServerScript(chunks, delays, case["end"], case["end_delay"], case["connect_delay"])
+        if "answer" in case:
+            # a TLS connection that is not gone the moment the client closes it: the peer completes the shutdown after
+            # case["answer"] seconds, or never (None)
+            from ..sim.client_linger import LingerLoop, LingerScript
+
+            loop = LingerLoop()
+            script = LingerScript(chunks, delays, case["end"], case["end_delay"], case["connect_delay"], answer=case["answer"])
+        else:
+            loop = VLoop()
+            script = ServerScript(chunks, delays, case["end"], case["end_delay"], case["connect_delay"])
         script.pause_after = case.get("pause_after")
         loop.scripts.append(script)
         loop.set_exception_handler(lambda lp, ctx: script.escaped.append(ctx.get("exception")) if ctx.get("exception") else None)
@@ -641,7 +685,20 @@ class Session(Family):
             loop.close()
         tr = script.transport
         return {"res": res, "elapsed": elapsed, "t_end": script.t_end, "closed_by_client": bool(tr and tr.close_calls),
+                "t_close": tr.t_close if tr else None, "t_lost": getattr(tr, "t_lost", None), "delivered": script.delivered,
                 "writes": len(tr.writes) if tr else 0, "escaped": [type(e).__name__ for e in script.escaped if e is not None]}
+
+    @staticmethod
+    def timeline(case, data: bytes):
+        """the server's time table, read off the case alone: (connection up, [(time, bytes delivered so far) per read], its close / reset or None)"""
+        chunks = split_at(data, case["cuts"])
+        delays = (case["delays"] + [0.0] * len(chunks))[: len(chunks)]
+        t, n, reads = case["connect_delay"], 0, []
+        for d, c in zip(delays, chunks):
+            t += d
+            n += len(c)
+            reads.append((t, n))
+        return case["connect_delay"], reads, (None if case["end"] == "stall" else t + case["end_delay"])
 
     def oracle(self, case, obs):
         T = case["timeout"]
@@ -649,9 +706,25 @@ class Session(Family):
         eps = 1e-6
         if res[0] == "hang":
             return ("no-timeout-cutoff", f"{case['op']}: nothing is scheduled any more and the call has not ended (virtual time {el}, timeout {T}): it would hang forever")
-        # never later than one timeout per phase (connect, response)
-        if el > 2 * T + eps:
-            return ("no-timeout-cutoff", f"the call took {el} virtual seconds with timeout {T}")
+        data = build(case["stream"])
+        t_up, reads, t_fin = self.timeline(case, data)
+        peer = ""
+        if "answer" in case:
+            peer = (" [TLS peer that " + ("never answers the client's close_notify (it has stopped reading)" if case["answer"] is None else f"answers the client's close_notify after {case['answer']} s")
+                    + ("; the client did not close the connection" if obs["t_close"] is None else f"; the client closed the connection at t={obs['t_close']}")
+                    + ("" if obs["t_lost"] is None else f", connection_lost followed at t={obs['t_lost']}") + "]")
+        what = f"{case['op']} through GeminiClient (timeout {T}; connection up at t={t_up}, server reads at {[t for t, _ in reads][:6]}, server {case['end']}{'' if t_fin is None else f' at t={t_fin}'})"
+        # never later than the timeout of each phase: connecting (cut off at T), then the response (cut off T after the connection is up)
+        limit = T if t_up >= T else t_up + T
+        if el > limit + eps:
+            return ("no-timeout-cutoff", f"{what}: the call ended with {res[:2]} at t={el}, later than the cut-off at t={limit}{peer}; stream head {data[:60]!r}")
+        if KNOWN_OUTCOME_RULE and obs["t_close"] is not None and el > obs["t_close"] + eps:
+            return ("waits-after-own-close", f"{what}: the client closed the connection at t={obs['t_close']} - its outcome was known - but the call "
+                                             f"only ended with {res[:2]} at t={el}{peer}; stream head {data[:60]!r}")
+        # the size cap: a well-formed 2x header followed by more than the cap is cut off with an error at the read that crosses the cap
+        v = self.cap_verdict(case, obs, data, what, peer)
+        if v:
+            return v
         if res[0] == "timeout":
             # a timeout is legitimate only if a phase really lasted T: connecting, or waiting while the peer neither closed nor reset
             waited_connect = case["connect_delay"] >= T
@@ -666,13 +739,105 @@ class Session(Family):
             if not (10 <= st <= 69) or ((body is not None) != (20 <= st <= 29)):
                 return ("bad-response", f"{res}")
             # whatever part of the stream arrived before the call ended: a response needs a header line with a status
-            v = malformed_header_verdict(f"{case['op']} through GeminiClient (segments cut at {case['cuts']}, server ends with {case['end']}): ", res, build(case["stream"]))
+            who = f"{case['op']} through GeminiClient (segments cut at {case['cuts'][:8]}, server ends with {case['end']})"
+            v = malformed_header_verdict(who + ": ", res, data)
+            if v:
+                return v
+            # ... and it is the response to the server's stream: a 2x response is only known when the server has closed, after its last byte
+            i = data.find(CRLF)
+            v = judge_one(who, res, want_of(data, case["dt"] if case["op"] == "get" else True), len(data) - i - 2 if i >= 0 else 0, data)
             if v:
                 return v
         return None
 
+    def cap_verdict(self, case, obs, data, what, peer):
+        from nauyaca.protocol.constants import MAX_RESPONSE_BODY_SIZE as CAP
+
+        T, res, el, eps = case["timeout"], obs["res"], obs["elapsed"], 1e-6
+        i = data.find(CRLF)
+        if not (0 <= i <= 1027 and len(data) - (i + 2) > CAP and data[:2].isdigit() and data[:2].isascii() and 20 <= int(data[:2]) <= 29 and data[2:3] == b" "):
+            return None
+        t_up, reads, _ = self.timeline(case, data)
+        t_cross = next(t for t, n in reads if n - (i + 2) > CAP)
+        if t_up >= T or t_cross - t_up >= T - eps:
+            return None            # the timeout comes first
+        if res[0] != "err" or el > t_cross + eps or not obs["closed_by_client"]:
+            return ("cap-not-enforced", f"{what}: the server sent {len(data) - i - 2} body bytes after a 2x header, more than the cap of {CAP}; the read that crossed the cap came at "
+                                        f"t={t_cross}, but the call ended with {res[:2] if res[0] != 'resp' else res} at t={el} (connection closed by the client: {obs['closed_by_client']}){peer}")
+        return None
+
     def key(self, case, obs):
         return f"{case['op']} {case['cls']} {case['end']} -> {obs['res'][0]}{':' + str(obs['res'][1]) if obs['res'][0] != 'resp' else ''} closed_by_client={obs['closed_by_client']}"
+
+
+# ----------------------------------------------------------------------------
+# linger: the same calls on TLS connections that are not gone the moment the client closes them
+# ----------------------------------------------------------------------------
+class Linger(Session):
+    """GeminiClient.get / upload on the virtual clock against peers that STALL at the TLS level: they send their bytes (a complete
+    response, a malformed header, half a body, more than the cap, nothing) and then neither read nor close, so the client's
+    close_notify is never answered (or late) and `connection_lost` only follows when asyncio gives up on the shutdown (30 s).
+    A never-finishing server is cut off at the timeout - T after the connection is up, whatever becomes of the connection after the
+    client has closed it - and a result is never later than that.  Oracle: the one of `session`."""
+    name = "linger"
+    quick_n = 800
+    thorough_n = 12000
+
+    def gen(self, rng: random.Random, n: int):
+        def fx(op, data, end="stall", answer=None, timeout=2.0, cuts=(), delays=None, end_delay=0.0, cls="fixed"):
+            return {"op": op, "stream": [lit(data)] if isinstance(data, bytes) else data, "cls": cls, "cuts": list(cuts), "delays": delays or [0.25] + [0.0] * len(cuts),
+                    "end": end, "end_delay": end_delay, "connect_delay": 0.0, "timeout": timeout, "dt": True, "answer": answer}
+
+        fixed = []
+        for op in ("get", "upload"):
+            fixed += [fx(op, b"20 text/gemini\r\n# partial"),                                # never finishes: cut off at the timeout
+                      fx(op, b"20 text/gemini\r\n# partial", cuts=[5, 16], delays=[0.25, 0.5, 0.125]),
+                      fx(op, b""),                                                            # says nothing at all
+                      fx(op, b"XX oops\r\n"), fx(op, b"75 oops\r\n"), fx(op, b"20\n text/plain\r\nx"),    # the error is known at once
+                      fx(op, b"2x text/plain\r\nbody", cuts=[3], delays=[0.5, 0.25], timeout=5.0),
+                      fx(op, b"51 gone\r\n"), fx(op, b"30 gemini://example.org/next\r\n", timeout=30.0),    # so is a response without body
+                      fx(op, b"20 text/plain\r\nwhole page\n", end="close", end_delay=0.25),    # the peer closes: nothing to wait for
+                      fx(op, b"20 text/plain; charset=klingon-8\r\nx", end="close", answer=None),
+                      fx(op, b"51 gone\r\n", answer=1.0), fx(op, b"XX oops\r\n", answer=3.0),             # a slow answer to the close_notify
+                      fx(op, [lit(b"20 image/png\r\n"), ["r", 7, MAX_BODY + 1]], cuts=[14], delays=[0.0, 0.25], cls="cap+1"),   # over the cap, then silence
+                      fx(op, [lit(b"20 " + b"m" * 1100)], cls="long-header")]
+        cnt = 0
+        for c in self.share(fixed):
+            cnt += 1
+            yield c
+        for c in self.share(self.cap_cases(rng, answers=(None, None, 0.25))):
+            cnt += 1
+            yield c
+        for _ in range(max(0, n - cnt)):
+            timeout = rng.choice([2.0, 5.0, 30.0])
+            if rng.random() < 0.3:
+                # a well-formed page in pieces
+                head = f"{rng.choice([20, 20, 21, 29])} {rng.choice(['text/gemini', 'text/plain; charset=utf-8', 'application/octet-stream', ''])}".encode() + CRLF
+                pieces = [bytes(rng.choice(b"abcdefghij \n#=>") for _ in range(rng.choice([1, 3, 17, 120]))) for _ in range(rng.choice([1, 2, 3]))]
+                data, cuts, pos = head + b"".join(pieces), [], len(head)
+                for pc in pieces[:-1]:
+                    pos += len(pc)
+                    cuts.append(pos)
+                if rng.random() < 0.6:
+                    cuts.append(len(head))
+                st, cls, cuts = [lit(data)], "page", sorted(set(c for c in cuts if 0 < c < len(data)))
+            else:
+                st, cls = gen_stream(rng)
+                ln = stream_len(st)
+                cuts = sorted(rng.sample(range(1, ln), min(ln - 1, rng.randint(0, 4)))) if ln > 1 else []
+            delays = [rng.choice([0.0, 0.0, 0.125, 0.5, 1.0]) for _ in range(len(cuts) + 1)]
+            if rng.random() < 0.1:
+                delays[rng.randrange(len(delays))] = timeout + 1.0          # a gap longer than the timeout
+            yield {"op": rng.choice(["get", "get", "upload"]), "stream": st, "cls": cls, "cuts": cuts, "delays": delays,
+                   "end": rng.choice(["stall", "stall", "stall", "close", "reset"]), "end_delay": rng.choice([0.0, 0.25, 1.0, timeout + 1.0]),
+                   "connect_delay": rng.choice([0.0, 0.0, 0.0, 0.5, timeout + 1.0]) if rng.random() < 0.2 else 0.0,
+                   "timeout": timeout, "dt": rng.random() < 0.9,
+                   "answer": rng.choice([None, None, None, None, 0.0, 0.25, 1.0, timeout + 1.0, 31.0])}
+
+    def key(self, case, obs):
+        a = case["answer"]
+        return (f"{case['op']} {case['cls']} {case['end']} peer-answers-close={'never' if a is None else 'at-once' if a == 0 else 'late'} -> "
+                f"{obs['res'][0]}{':' + str(obs['res'][1]) if obs['res'][0] != 'resp' else ''}")
 
 
 # ----------------------------------------------------------------------------
@@ -928,7 +1093,7 @@ class Live(Family):
         self.w = T.world()
 
     def gen(self, rng: random.Random, n: int):
-        kinds = ["ok-close", "ok-notify", "non2x", "cut-header", "cut-body", "reset-body", "stall-header", "stall-body", "cap", "unknown-charset", "bad-status", "odd-codec"]
+        kinds = ["ok-close", "ok-notify", "non2x", "cut-header", "cut-body", "reset-body", "stall-header", "stall-body", "cap", "cap-close", "unknown-charset", "bad-status", "odd-codec"]
         for i in range(n):
             k = kinds[(i + rng.randrange(len(kinds))) % len(kinds)] if i < len(kinds) * 2 else rng.choice(kinds)
             yield {"kind": k, "op": rng.choice(["get", "get", "upload"]), "tofu": rng.random() < 0.5, "nchunks": rng.choice([1, 2, 5]),
@@ -956,6 +1121,9 @@ class Live(Family):
             return b"20 text/plain\r\n" + body, "stall", "timeout"
         if k == "cap":
             return b"20 application/octet-stream\r\n" + b"\0" * (MAX_BODY + 70000), "wait", "err"
+        if k == "cap-close":
+            # more than the cap, then the server closes at once (the call has CAP_TIMEOUT to take it all in): an error, not the oversize body
+            return rnd.choice([b"20 application/octet-stream\r\n", b"20 text/plain\r\n"]) + b"\xa5" * (MAX_BODY + rnd.choice([1, 5000, 1 << 20])), "close", "err"
         if k == "unknown-charset":
             return b"20 text/plain; charset=klingon-8\r\n" + body, "close", "err"
         if k == "odd-codec":
@@ -963,11 +1131,19 @@ class Live(Family):
         return rnd.choice([b"2x text/plain\r\n", b"99 nope\r\n", b"+20 text/plain\r\n", b"20\r\n", b"20\n text/plain\r\n", b"51\n\r\n", b"\t20 text/plain\r\n",
                            b"20\x0c text/plain\r\n"]) + body[:50], "wait", "err"
 
+    CAP_TIMEOUT = 12.0        # for the kind that has to move > 10 MiB over loopback TLS on a busy machine before the server's close counts
+    STALL_HOLD = 2.0          # a stalling server sits on the connection for TIMEOUT + this, without reading
+    STALL_SLACK = 1.2         # ... and the call is back at most this much after its timeout
+
+    def timeout_of(self, case) -> float:
+        return self.CAP_TIMEOUT if case["kind"] == "cap-close" else self.TIMEOUT
+
     def impl(self, case):
         from nauyaca.client.session import GeminiClient
 
         data, fin, _ = self.plan(case)
         peer = self.w["peers"][0]
+        T = self.timeout_of(case)
         n = case["nchunks"]
         step = max(1, len(data) // n)
         steps = [["read_request", 2.0]]
@@ -976,13 +1152,13 @@ class Live(Family):
             if n > 1 and a + step < len(data) and len(data) < 100000:
                 steps.append(["sleep", 0.01])
         steps += {"close": [["close"]], "close_notify": [["close_notify"]], "reset": [["reset"]], "wait": [["read_eof", 3.0], ["close"]],
-                  "stall": [["sleep", self.TIMEOUT + 0.8], ["close"]]}[fin]
+                  "stall": [["sleep", T + self.STALL_HOLD], ["close"]]}[fin]
         peer.push("ec", steps)
         tmp = tempfile.mkdtemp(prefix="nv-")
 
         async def go():
             asyncio.get_running_loop().set_exception_handler(lambda loop, ctx: None)
-            c = GeminiClient(timeout=self.TIMEOUT, trust_on_first_use=case["tofu"], tofu_db_path=Path(tmp) / "t.db" if case["tofu"] else None)
+            c = GeminiClient(timeout=T, trust_on_first_use=case["tofu"], tofu_db_path=Path(tmp) / "t.db" if case["tofu"] else None)
             url = f"gemini://127.0.0.1:{peer.port}/x"
             t0 = time.monotonic()
             try:
@@ -1017,12 +1193,17 @@ class Live(Family):
     def oracle(self, case, obs):
         _, fin, cls = self.plan(case)
         res, el = obs["res"], obs["elapsed"]
-        if el > self.TIMEOUT * 2 + 1.0:
-            return ("no-timeout-cutoff", f"{case['kind']}: the call took {el}s with timeout {self.TIMEOUT}s")
-        if fin != "stall" and (res[0] == "timeout" or el > self.TIMEOUT - 0.4) and case["kind"] != "cap":
-            return ("hang-after-close", f"{case['kind']}: the server finished at once ({fin}) but the call ended with {res} after {el}s (timeout {self.TIMEOUT}s)")
+        T = self.timeout_of(case)
+        if el > T * 2 + 1.0:
+            return ("no-timeout-cutoff", f"{case['kind']}: the call took {el}s with timeout {T}s")
+        if fin != "stall" and (res[0] == "timeout" or el > T - 0.4) and case["kind"] != "cap":
+            return ("hang-after-close", f"{case['kind']}: the server finished at once ({fin}) but the call ended with {res} after {el}s (timeout {T}s)")
         if fin == "stall" and res[0] != "timeout":
             return ("stall-not-timeout", f"{case['kind']}: a stalling server gave {res}")
+        if fin == "stall" and el > T + self.STALL_SLACK:
+            # the server sits on the connection (no read, no close) for T + STALL_HOLD: the cut-off is the timeout, not the end of the connection
+            return ("no-timeout-cutoff", f"{case['kind']} ({case['op']} through GeminiClient over loopback TLS, timeout {T}s): the server sent {obs['sent']} bytes and then neither read nor "
+                                         f"closed for {T + self.STALL_HOLD}s; the call ended with {res} only after {el}s, not at its timeout")
         if res[0] == "resp":
             if not (10 <= res[1] <= 69) or ((res[3] is not None) != (20 <= res[1] <= 29)):
                 return ("bad-response", f"{res}")
@@ -1031,8 +1212,9 @@ class Live(Family):
                 return v
             if res[3] is not None and res[3] != obs["want_body"]:
                 return ("body-mismatch", f"{case['kind']}: body {res[3]} is not what the server sent after the first CRLF ({obs['want_body']})")
-            if case["kind"] == "cap":
-                return ("cap-not-enforced", f"got a response {res[:3]} for a body of {obs['sent']} bytes")
+            if case["kind"] in ("cap", "cap-close"):
+                return ("cap-not-enforced", f"{case['kind']} ({case['op']} through GeminiClient over loopback TLS): got a response {res[:3]} with body {res[3]} for a stream of {obs['sent']} bytes "
+                                            f"(2x header + more than the cap of {MAX_BODY} body bytes)")
         return None
 
     def key(self, case, obs):
@@ -1174,4 +1356,4 @@ class LiveOverlap(Family):
         return f"n={len(case['calls'])} tofu={case['tofu']} " + "+".join(sorted(f"{c['kind']}->{o['res'][0]}" for c, o in zip(case["calls"], obs["calls"])))
 
 
-FAMILIES = [Proto(), Session(), Overlap(), Live(), LiveOverlap()]
+FAMILIES = [Proto(), Session(), Linger(), Overlap(), Live(), LiveOverlap()]
